@@ -31,6 +31,14 @@ type Pair struct {
 	holdTyp  byte
 	holding  int
 	holdCond *sync.Cond
+
+	// ReadHook, if set, is called with the lock held whenever endpoint ep enters ReadPacket
+	// (i.e. its reader has finished handling everything it dequeued before) or calls Close.
+	ReadHook func(ep int, closing bool)
+	// AfterWrite, if set, is called with the lock held right after endpoint ep queued packet p for
+	// its peer; if it returns true the writer then waits (packet already delivered) until Release.
+	AfterWrite func(ep int, p []byte) bool
+	afterHeld  int
 }
 
 type End struct {
@@ -72,7 +80,43 @@ func (e *End) WritePacket(pkt []byte) error {
 	}
 	p.q[1-e.i] = append(p.q[1-e.i], cp)
 	p.cond[1-e.i].Signal()
+	if p.AfterWrite != nil && p.AfterWrite(e.i, cp) {
+		// the packet is on its way; the writing goroutine is held before it can continue
+		p.holdOn = true
+		p.afterHeld++
+		for p.holdOn {
+			p.holdCond.Wait()
+		}
+		p.afterHeld--
+	}
 	return nil
+}
+
+// WritePackets queues several packets for the peer atomically: the peer's reader finds all of them
+// queued when it next asks for a packet.
+func (e *End) WritePackets(pkts [][]byte) error {
+	p := e.p
+	p.mu.Lock()
+	defer p.mu.Unlock()
+	if p.closed[e.i] || p.closed[1-e.i] {
+		return ErrClosed
+	}
+	for _, pkt := range pkts {
+		cp := append([]byte(nil), pkt...)
+		if p.mon != nil {
+			p.mon(e.i, true, cp)
+		}
+		p.q[1-e.i] = append(p.q[1-e.i], cp)
+	}
+	p.cond[1-e.i].Signal()
+	return nil
+}
+
+// AfterHeld returns the number of writers held after their packet was delivered.
+func (p *Pair) AfterHeld() int {
+	p.mu.Lock()
+	defer p.mu.Unlock()
+	return p.afterHeld
 }
 
 // ReadPacket blocks until a packet is available; queued packets are still delivered after the
@@ -81,6 +125,9 @@ func (e *End) ReadPacket() ([]byte, error) {
 	p := e.p
 	p.mu.Lock()
 	defer p.mu.Unlock()
+	if p.ReadHook != nil {
+		p.ReadHook(e.i, false)
+	}
 	for len(p.q[e.i]) == 0 {
 		if p.closed[e.i] || p.closed[1-e.i] {
 			return nil, io.EOF
@@ -116,6 +163,9 @@ func (e *End) TryRead() ([]byte, bool) {
 func (e *End) Close() error {
 	p := e.p
 	p.mu.Lock()
+	if p.ReadHook != nil && !p.closed[e.i] {
+		p.ReadHook(e.i, true)
+	}
 	p.closed[e.i] = true
 	p.cond[0].Broadcast()
 	p.cond[1].Broadcast()
@@ -137,6 +187,16 @@ func (p *Pair) Release() {
 	p.holdCond.Broadcast()
 	p.mu.Unlock()
 }
+
+// ReleaseLocked is Release for callers that already hold the pair's lock (hooks, monitor).
+func (p *Pair) ReleaseLocked() {
+	p.holdOn = false
+	p.holdCond.Broadcast()
+}
+
+// AfterHeldLocked is AfterHeld for callers that already hold the pair's lock: writers that were
+// held after delivery and have not resumed yet (released or not).
+func (p *Pair) AfterHeldLocked() int { return p.afterHeld }
 
 // Holding returns the number of writers currently held by the gate.
 func (p *Pair) Holding() int {
